@@ -241,7 +241,17 @@ func init() {
 			e.envInit()
 			at := e.tb.Resize(a[0].(*Term), 64, true)
 			f := a[1]
-			e.addEvent(at, "harness event", func() { e.spawn(deferred{fn: f}) })
+			var regVC vclock
+			if e.race != nil && e.race.on {
+				g, vc := e.gvc()
+				regVC = vjoin(vc, nil)
+				g.tick()
+			}
+			e.addEvent(at, "harness event", func() {
+				e.forkVC = regVC
+				e.spawn(deferred{fn: f})
+				e.forkVC = nil
+			})
 			return nil, nil
 		},
 		"verifNow": func(e *Exec, fn *ssa.Function, a []Value) (Value, *GoPanic) {
@@ -264,6 +274,14 @@ func init() {
 				}
 			}
 			return e.tb.Const(64, uint64(n)), nil
+		},
+		"verifRaceDetect": func(e *Exec, fn *ssa.Function, a []Value) (Value, *GoPanic) {
+			e.envInit()
+			if e.race == nil {
+				e.race = &raceState{locs: map[string]*locState{}, syncVC: map[string]vclock{}}
+			}
+			e.race.on = a[0].(*Term).IsTrue()
+			return nil, nil
 		},
 		"verifSchedule": func(e *Exec, fn *ssa.Function, a []Value) (Value, *GoPanic) {
 			e.envInit()
@@ -343,12 +361,12 @@ func init() {
 		"strconv.FormatInt":  opaqueString,
 		"strconv.FormatUint": opaqueString,
 		"strconv.Quote":      opaqueString,
-		"sort.Ints":                    sortInts,
-		"sort.Strings":                 sortStrings,
-		"sort.Slice":                   sortSlice,
-		"strings.Index":                stringsIndex,
-		"strings.IndexByte":            stringsIndexByte,
-		"bytes.IndexByte":              bytesIndexByte,
+		"sort.Ints":          sortInts,
+		"sort.Strings":       sortStrings,
+		"sort.Slice":         sortSlice,
+		"strings.Index":      stringsIndex,
+		"strings.IndexByte":  stringsIndexByte,
+		"bytes.IndexByte":    bytesIndexByte,
 		"strings.Contains": func(e *Exec, fn *ssa.Function, a []Value) (Value, *GoPanic) {
 			v, pan := stringsIndex(e, fn, a)
 			if pan != nil {
@@ -432,17 +450,19 @@ func init() {
 		"(*sync.WaitGroup).Wait":  wgWait,
 		"sync/atomic.CompareAndSwapUint32": func(e *Exec, fn *ssa.Function, a []Value) (Value, *GoPanic) {
 			p := a[0].(*Ptr)
-			old := e.load(p).(*Term)
+			old := e.atomicLoad(p).(*Term)
 			eq := e.tb.Eq(old, a[1].(*Term))
 			if e.branch(eq) {
-				e.store(p, a[2])
+				e.atomicStore(p, a[2])
 				return e.tb.T, nil
 			}
 			return e.tb.F, nil
 		},
-		"sync/atomic.LoadUint32": func(e *Exec, fn *ssa.Function, a []Value) (Value, *GoPanic) { return e.load(a[0].(*Ptr)), nil },
+		"sync/atomic.LoadUint32": func(e *Exec, fn *ssa.Function, a []Value) (Value, *GoPanic) {
+			return e.atomicLoad(a[0].(*Ptr)), nil
+		},
 		"sync/atomic.StoreUint32": func(e *Exec, fn *ssa.Function, a []Value) (Value, *GoPanic) {
-			e.store(a[0].(*Ptr), a[1])
+			e.atomicStore(a[0].(*Ptr), a[1])
 			return nil, nil
 		},
 		"internal/bytealg.MakeNoZero": func(e *Exec, fn *ssa.Function, a []Value) (Value, *GoPanic) {
@@ -969,4 +989,22 @@ func (e *Exec) retained(v Value, seen map[interface{}]bool) int64 {
 		return n
 	}
 	return 8
+}
+
+// atomic accesses synchronise (release/acquire on the location) and are not themselves racy
+func (e *Exec) atomicLoad(p *Ptr) Value {
+	e.raceAcquire("atomic" + ptrKey(p))
+	r := e.race
+	e.race = nil
+	v := e.load(p)
+	e.race = r
+	return v
+}
+
+func (e *Exec) atomicStore(p *Ptr, v Value) {
+	e.raceRelease("atomic" + ptrKey(p))
+	r := e.race
+	e.race = nil
+	e.store(p, v)
+	e.race = r
 }
